@@ -764,6 +764,33 @@ pub fn run_scale<C: KeyColl>(tr: &mut Trace, seed: u64, rounds: &str, deep: i32)
             s.apply(&KOp::By { t, th: 2 * p + 1 }, 0);
         }
     };
+    if rounds.contains('S') {
+        // clear sweep: every population n of the range (hence every combination of arena size and free
+        // slots a fill can end in) is cleared and refilled past the old arena size by bulk calls; the
+        // refill expires all at once around a survivor
+        let (lo, hi) = (deep.max(1), (deep + 44).max(1));
+        for n in lo..=hi {
+            if s.tr.full() {
+                break;
+            }
+            s.snap_every = 1;
+            s.obs_every = 1;
+            s.keys = n + 20;
+            s.reset([0usize, 1, 8, 9][(seed as usize + n as usize) % 4]);
+            s.apply(&KOp::Bulk { lo: 1, hi: n, e: 1000, t: 0, ord: n % 3 }, 0);
+            s.apply(&KOp::Clear, 0);
+            s.apply(&KOp::Empty, 0);
+            let m = n + 10 + (n % 7);
+            s.apply(&KOp::Bulk { lo: 1, hi: m, e: 5, t: 0, ord: (n + 1) % 3 }, 0);
+            let v = s.next_value(m + 1, 1000);
+            s.apply(&KOp::Ins { k: m + 1, e: 1000, v, t: 0 }, 0);
+            s.apply(&KOp::Get { t: 1, k: m / 2 + 1 }, 0);
+            s.apply(&KOp::Le { t: 10, p: m }, 0);
+            s.apply(&KOp::Get { t: 10, k: m + 1 }, 0);
+            s.apply(&KOp::Lt { t: 10, p: m + 2 }, 0);
+            s.apply(&KOp::Clear, 0);
+        }
+    }
     if rounds.contains('A') {
         for target in [7usize, 15, 23, 39] {
             s.snap_every = 1;
@@ -802,8 +829,11 @@ pub fn run_scale<C: KeyColl>(tr: &mut Trace, seed: u64, rounds: &str, deep: i32)
         for n in [17, 40, 100] {
             s.snap_every = if n > 48 { 8 } else { 1 };
             s.reset(0);
-            let v = s.next_value(1000, 1000);
-            s.apply(&KOp::Ins { k: 1000, e: 1000, v, t: 0 }, 0);
+            if n != 40 {
+                // a survivor in a low slot (n = 40: the survivors sit in the highest slots only)
+                let v = s.next_value(1000, 1000);
+                s.apply(&KOp::Ins { k: 1000, e: 1000, v, t: 0 }, 0);
+            }
             let mut ks: Vec<i32> = (1..=n).collect();
             match (seed + n as u64) % 3 {
                 1 => ks.reverse(),
@@ -828,6 +858,35 @@ pub fn run_scale<C: KeyColl>(tr: &mut Trace, seed: u64, rounds: &str, deep: i32)
                 s.apply(&KOp::Lt { t: 10, p }, 0);
             }
             s.apply(&KOp::Export { t: 10 }, 0);
+        }
+    }
+    if rounds.contains('F') {
+        // fault enumeration in a collection of a dozen entries, three of them expired at the time of
+        // the call: every callback index of a query / an insertion that has to purge them panics in
+        // turn; afterwards everything is looked at, at that time and later
+        let exps = [20, 3, 20, 20, 3, 20, 20, 20, 3, 20, 20, 20];
+        for (oi, op) in [KOp::Le { t: 5, p: 13 }, KOp::Ins { k: 13, e: 20, v: 13209, t: 5 }, KOp::Get { t: 5, k: 6 }, KOp::Lt { t: 5, p: 2 }].iter().enumerate() {
+            let mut j = 1u64;
+            loop {
+                s.snap_every = 1;
+                s.obs_every = 1;
+                s.keys = 14;
+                s.reset([0usize, 16][oi % 2]);
+                for (i, e) in exps.iter().enumerate() {
+                    let k = i as i32 + 1;
+                    let v = s.next_value(k, *e);
+                    s.apply(&KOp::Ins { k, e: *e, v, t: 0 }, 0);
+                }
+                s.apply(op, j);
+                let unwound = s.last_unwound;
+                for t in [5, 6] {
+                    probes(&mut s, t, 14);
+                }
+                if !unwound || j > 80 {
+                    break;
+                }
+                j += 1;
+            }
         }
     }
     if rounds.contains('C') {
